@@ -5,13 +5,17 @@ sd=$1; name=$2; shift 2
 wt=/tmp/sw-$name
 out=/verif/seeded/$name
 mkdir -p $out
+if [ -f $out/result.txt ]; then grep "check=" $out/result.txt | sed "s/^/earlier run: /" | cut -c1-160 >> $out/history.txt; fi
 git -C /repo worktree remove --force $wt 2>/dev/null
 git -C /repo worktree add --detach $wt HEAD -q || exit 2
 cp $sd/patch.diff $sd/demo.py $out/ ; cp $sd/meta.json $out/meta.orig.json
 cd $wt
 PYTHONPATH=$wt /venv/bin/python $out/demo.py > $out/demo_unchanged.log 2>&1; d0=$?
-if ! git apply --check $out/patch.diff 2>/dev/null; then echo "$name: PATCH DOES NOT APPLY" | tee $out/result.txt; git -C /repo worktree remove --force $wt; exit 3; fi
-git apply $out/patch.diff
+if git apply --check $out/patch.diff 2>/dev/null; then git apply $out/patch.diff
+elif git apply --check --ignore-whitespace $out/patch.diff 2>/dev/null; then git apply --ignore-whitespace $out/patch.diff; echo "(applied with --ignore-whitespace)" > $out/apply_note.txt
+elif git apply --3way $out/patch.diff 2>/dev/null && ! git diff --name-only --diff-filter=U | grep -q .; then echo "(applied with --3way on top of later fix commits)" > $out/apply_note.txt; git reset -q
+else echo "$name: PATCH DOES NOT APPLY" | tee $out/result.txt; git -C /repo worktree remove --force $wt; exit 3; fi
+git diff > $out/patch_as_applied.diff
 PYTHONPATH=$wt /venv/bin/python $out/demo.py > $out/demo_changed.log 2>&1; d1=$?
 echo "$name demo_unchanged_exit=$d0 demo_changed_exit=$d1" > $out/result.txt
 cd /verif
